@@ -146,6 +146,18 @@ func scenarios(seed int64, thorough bool) []*Scenario {
 			add(&Scenario{Class: "gate-slowflush", Kind: "sse", IntervalNs: iv, N: 2, Sizes: pickSizes(r, 2, false),
 				DelaysNs: []int64{int64(r.Intn(300_000)), int64(r.Intn(300_000))}, EndDelayNs: int64(r.Intn(200_000)), Hold: h, CutAt: -1})
 		}
+		// the decisive pairs, on ONE processor (see c12srv/gate.go): the slow flush of one section parks
+		// keepAlive on mu for > 1 ms, the slow flush of the NEXT section lets it wake while mu is held
+		// again, so sync.Mutex hands mu to keepAlive the moment that next section ends
+		for _, pr := range []struct {
+			n    int
+			hold string
+			err  bool
+		}{{1, "flush:next:1,flush:complete", false}, {3, "flush:next:3,flush:complete", false}, {2, "flush:next:1,flush:next:2", false},
+			{3, "flush:next:2,flush:next:3", false}, {1, "flush:next:1,flush:complete", true}} {
+			add(&Scenario{Class: "gate-slowflush-1p", Kind: "sse", IntervalNs: int64(20_000 + r.Intn(40_000)), N: pr.n, Sizes: pickSizes(r, pr.n, false),
+				DelaysNs: make([]int64, pr.n), Hold: pr.hold, ErrMode: pr.err, OneP: true, CutAt: -1})
+		}
 		add(&Scenario{Class: "gate-slowflush", Kind: "sse", IntervalNs: int64(20_000 + r.Intn(40_000)), N: 0, Hold: "flush:complete", CutAt: -1})
 		add(&Scenario{Class: "gate-slowflush", Kind: "sse", IntervalNs: int64(20_000 + r.Intn(40_000)), N: 1, ErrMode: true, Hold: "flush:complete", CutAt: -1})
 		for _, h := range []string{"flush:close", "flush:n:1", "flush:n:2"} {
